@@ -27,7 +27,7 @@ func init() {
 			"the [[Enumerable]] attribute of String wrapper index properties is masked (String exotic object: property C09)",
 			"every loop is capped at 2^16 model steps; costlier cases are skipped before otto is run",
 		},
-		CaseTimeoutS: 60,
+		CaseTimeoutS: 10,
 		Floor: func(tier string) int {
 			if tier == "thorough" {
 				return 100000
@@ -36,7 +36,7 @@ func init() {
 		},
 		Cases: func(tier string, seed uint64) int {
 			if tier == "thorough" {
-				return 3000000
+				return 1800000
 			}
 			return 90000
 		},
@@ -168,7 +168,7 @@ func runOtto(in *Input, sortLen int) (events []string, out ox.Outcome, src strin
 	proto := usesProto(in)
 	for _, op := range in.Ops {
 		b.WriteString(opJS(op, proto, sortLen))
-		if op.Op == "call" && op.M == "sort" && !(in.Recv.Kind == "prim" && (in.Recv.P.K == "u" || in.Recv.P.K == "null")) {
+		if op.Op == "call" && op.M == "sort" && !(in.Recv.Kind == "prim" && in.Recv.P.K != "s") {
 			break // the sort observation ends the history (see mrun.prepareSort)
 		}
 	}
